@@ -18,7 +18,9 @@ LEVEL_TEXT = ("Lean theorems over Model/Shm.lean (Manager.add/get/close_callback
               "'space returns only via purge/close/callback' for every state. The reachable-state theorems are _partial: they assume that no purge "
               "request hits a reader-less dataset whose disk job is in flight (known finding C08-purge-in-flight, with machine-checked "
               "counterexamples c08_accounting_full_fails / c08_real_usage_full_fails) and that the writer creates its segment with the granted size "
-              "while the dataset is 'created'. Tied to the real Manager by a step-by-step correspondence check.")
+              "while the dataset is 'created'. c08_midio_purge_atomic: a purge served while the page-out writer thread is between write and unlink acts like "
+              "'purge, then the job's I/O' (handler-atomic steps lose nothing). Tied to the real Manager by a step-by-step correspondence check, incl. purges "
+              "served from inside Disk._page_out.")
 LEVEL_NOTE = ("modelled, not verified: cascade/shm/dataset.py Manager+Dataset, algorithms.py lottery, disk.py Disk (as two maps key->(size,content token)), "
               "server.py request dispatch (exercised, FreeSpaceRequest modelled), client.py AllocatedBuffer (exercised). Handler-atomic steps: byte-code level "
               "races between the server thread and pool-thread callbacks are outside the model; POSIX shm/file semantics are validated, not proved")
